@@ -32,6 +32,10 @@ class ToolingError(Exception):
     pass
 
 
+class CaseBudgetExceeded(BaseException):
+    """raised by the SIGPROF handler installed in check.py when one case used more CPU than Ctx.CASE_CPU_BUDGET"""
+
+
 def sh(cmd, cwd=None, timeout=3600):
     p = subprocess.run(cmd, cwd=cwd, capture_output=True, text=True, timeout=timeout, check=False)
     return p.returncode, p.stdout + p.stderr
@@ -153,7 +157,17 @@ class Ctx:
     def rng(self, *salt):
         return common.rng(self.pid, *salt)
 
+    CASE_CPU_BUDGET = 90.0   # seconds of CPU of this process between two cases (the slowest case on the unchanged tree: ~15 s)
+
     def case(self, key: object, nontrivial: bool = True, sample=None):
+        # every case re-arms a CPU-time budget: code under test that spins for ever (or for minutes) inside one case is
+        # reported as a failure of that case (check.py) instead of the check never ending
+        try:
+            import signal
+            signal.setitimer(signal.ITIMER_PROF, self.CASE_CPU_BUDGET)
+            self.last_case = repr(key)[:600]
+        except Exception:  # noqa: BLE001
+            pass
         self.evaluations += 1
         if nontrivial:
             self.keys.add(hashlib.sha1(repr(key).encode()).hexdigest()[:16])
